@@ -471,6 +471,11 @@ pub fn generate(profile: &str, seed: u64, n_ops: usize, blob: bool) -> History {
         cfg.staleness = *rng.pick(&[0.0f32, 0.01, 0.25, 0.5]);
         cfg.age_cutoff = *rng.pick(&[0.5f32, 1.0, 1.0]);
     }
+    if profile == "weak" && blob {
+        // weak deletes over separated values (pair cancellation must report the dropped blob)
+        cfg.sep_threshold = *rng.pick(&[1u32, 2, 4]);
+        cfg.staleness = *rng.pick(&[0.0f32, 0.25, 0.9]);
+    }
     let mut st = GenState {
         keys: key_universe(&mut rng),
         vn: 0,
